@@ -223,6 +223,16 @@ def run(R, env):
             cb = prog.body(t.get("rkey")) if t.get("rkey") else None
             if cb is not None and any(ns_of(prog, a) == "inflight" for a in args if a[0] in ("item",)) and any(s_[0] == "closure" for a in args for s_ in subterms(a)):
                 pcalls.append((bi, t, args))
+        RECOVER_SHAPE = ["C07.R5", "C07.R6", "C07.R7", "C07.R8"]
+        deep_scan = []
+        if not pcalls:
+            # the handler does not scan INFLIGHT_PACKETS through the pagination helper in its own
+            # body (selection / summation moved into helpers): the shape rules below model only the
+            # in-line idiom and do not decide a restructured handler.  The authorization of forced
+            # recovery (R6, world-based) is still decided.
+            deep_scan = [1 for c_, p_ in inline_walk(prog, w, 3) for bi_, t_, a_ in call_sites(c_, lambda nm: True) if prog.body(t_.get("rkey") or "") is not None and any(ns_of(prog, x) == "inflight" for x in a_ if x[0] == "item") and any(s_[0] == "closure" for x in a_ for s_ in subterms(x))]
+            if deep_scan:
+                R.set_undecided(RECOVER_SHAPE, "recover is restructured into helpers; only the in-line selection/summation idiom is modelled")
         R.ob("C07.R5", "recover:uses-filtered-pagination", len(pcalls) == 1, "found %d paginated scans of INFLIGHT_PACKETS with a filter in the permissionless path" % len(pcalls), fn=hk)
         for bi, t, args in pcalls:
             clo = [s_ for a in args for s_ in subterms(a) if s_[0] == "closure"][0]
@@ -284,7 +294,12 @@ def run(R, env):
         loads = [o for o in storage_ops_deep(prog, wf, env.depth) if o["op"] == "load" and ns_of(prog, o["args"][0]) == "inflight"]
         good = len(loads) >= 1 and all(o["args"][2][0] == "payload" and any(shared.selected_packets_pred(s_) for s_ in subterms(o["args"][2])) for o in loads)
         R.ob("C07.R6", "recover:forced:loads-selected-packets", good, "forced recovery does not load exactly the selected ids from INFLIGHT_PACKETS", fn=hk)
+        # authorization of the forced path is world-based, not shape-based: always decided
+        restructured = not pcalls and bool(deep_scan)
+        R.clear_undecided(["C07.R6"])
         shared.forced_recover_admin(R, env, prog, *_arm(prog), "C07.R6")
+        if restructured:
+            R.set_undecided(["C07.R6"], "recover is restructured into helpers; only the in-line selection/summation idiom is modelled")
         # R7 same denom
         def denom_cmp(t):
             if t[0] == "call" and t[1] in EQ:
@@ -316,6 +331,7 @@ def run(R, env):
             adds = [abi for abi, t_, a_ in call_sites(h, lambda nm: nm.endswith("AddAssign::add_assign"))]
             R.ob("C07.R7", "recover:check-precedes-summation", bool(adds) and all(not h.body.reaches(ab, [bi], h.removed) for ab in adds), "the summation can run before the denom check", loc=h.body.loc(bi), fn=hk)
         C02.recover_only(R, env, prog, sites, "C07.R8")
+        R.clear_undecided(["C07.R5", "C07.R6", "C07.R7", "C07.R8"])
     # ------------------------------------------------------------ R9
     for ns, table in (("inflight", INFLIGHT_WRITERS), ("ibc_waiting_for_reply", WAITING_WRITERS)):
         who = {}
